@@ -19,25 +19,32 @@ LevelCache::LevelCache(const PolarGrid& grid, const DensityProfileCoefficients& 
 {
 #pragma omp parallel for
     for (int i_theta = 0; i_theta < grid.ntheta(); i_theta++) {
+        VERIF_ITER(i_theta);
         const double theta  = grid.theta(i_theta);
         sin_theta_[i_theta] = sin(theta);
+        VERIF_RANGE(&sin_theta_[i_theta], 1, true);
         cos_theta_[i_theta] = cos(theta);
+        VERIF_RANGE(&cos_theta_[i_theta], 1, true);
     }
 
     if (cache_density_profile_coefficients_) {
 #pragma omp parallel for
         for (int i_r = 0; i_r < grid.nr(); i_r++) {
+            VERIF_ITER(i_r);
             const double r = grid.radius(i_r);
             if (!cache_domain_geometry_) {
                 coeff_alpha_[i_r] = density_profile_coefficients.alpha(r);
+                VERIF_RANGE(&coeff_alpha_[i_r], 1, true);
             }
             coeff_beta_[i_r] = density_profile_coefficients.beta(r);
+            VERIF_RANGE(&coeff_beta_[i_r], 1, true);
         }
     }
 
     if (cache_domain_geometry_) {
 #pragma omp parallel for
         for (int i_r = 0; i_r < grid.numberSmootherCircles(); i_r++) {
+            VERIF_ITER(i_r);
             const double r     = grid.radius(i_r);
             double coeff_alpha = density_profile_coefficients.alpha(r);
             for (int i_theta = 0; i_theta < grid.ntheta(); i_theta++) {
@@ -50,14 +57,19 @@ LevelCache::LevelCache(const PolarGrid& grid, const DensityProfileCoefficients& 
                 compute_jacobian_elements(domain_geometry_, r, theta, sin_theta, cos_theta, coeff_alpha, arr, att, art,
                                           detDF);
                 detDF_[index] = detDF;
+                VERIF_RANGE(&detDF_[index], 1, true);
                 arr_[index]   = arr;
+                VERIF_RANGE(&arr_[index], 1, true);
                 att_[index]   = att;
+                VERIF_RANGE(&att_[index], 1, true);
                 art_[index]   = art;
+                VERIF_RANGE(&art_[index], 1, true);
             }
         }
 
 #pragma omp parallel for
         for (int i_theta = 0; i_theta < grid.ntheta(); i_theta++) {
+            VERIF_ITER(i_theta);
             const double theta     = grid.theta(i_theta);
             const double sin_theta = sin_theta_[i_theta];
             const double cos_theta = cos_theta_[i_theta];
@@ -77,9 +89,13 @@ LevelCache::LevelCache(const PolarGrid& grid, const DensityProfileCoefficients& 
                 compute_jacobian_elements(domain_geometry_, r, theta, sin_theta, cos_theta, coeff_alpha, arr, att, art,
                                           detDF);
                 detDF_[index] = detDF;
+                VERIF_RANGE(&detDF_[index], 1, true);
                 arr_[index]   = arr;
+                VERIF_RANGE(&arr_[index], 1, true);
                 att_[index]   = att;
+                VERIF_RANGE(&att_[index], 1, true);
                 art_[index]   = art;
+                VERIF_RANGE(&art_[index], 1, true);
             }
         }
     }
@@ -104,39 +120,53 @@ LevelCache::LevelCache(const Level& previous_level, const PolarGrid& current_gri
     for (int i_theta = 0; i_theta < current_grid.ntheta(); i_theta++) {
         const double theta  = current_grid.theta(i_theta);
         sin_theta_[i_theta] = previous_level_cache.sin_theta()[2 * i_theta];
+        VERIF_RANGE(&sin_theta_[i_theta], 1, true);
         cos_theta_[i_theta] = previous_level_cache.cos_theta()[2 * i_theta];
+        VERIF_RANGE(&cos_theta_[i_theta], 1, true);
     }
 
     if (previous_level_cache.cacheDensityProfileCoefficients()) {
         for (int i_r = 0; i_r < current_grid.nr(); i_r++) {
             if (!previous_level_cache.cacheDomainGeometry()) {
                 coeff_alpha_[i_r] = previous_level_cache.coeff_alpha()[2 * i_r];
+                VERIF_RANGE(&coeff_alpha_[i_r], 1, true);
             }
             coeff_beta_[i_r] = previous_level_cache.coeff_beta()[2 * i_r];
+            VERIF_RANGE(&coeff_beta_[i_r], 1, true);
         }
     }
 
     if (previous_level_cache.cacheDomainGeometry()) {
 #pragma omp parallel for
         for (int i_r = 0; i_r < current_grid.numberSmootherCircles(); i_r++) {
+            VERIF_ITER(i_r);
             for (int i_theta = 0; i_theta < current_grid.ntheta(); i_theta++) {
                 const int current_index  = current_grid.index(i_r, i_theta);
                 const int previous_index = previous_level.grid().index(2 * i_r, 2 * i_theta);
                 arr_[current_index]      = previous_level_cache.arr()[previous_index];
+                VERIF_RANGE(&arr_[current_index], 1, true);
                 att_[current_index]      = previous_level_cache.att()[previous_index];
+                VERIF_RANGE(&att_[current_index], 1, true);
                 art_[current_index]      = previous_level_cache.art()[previous_index];
+                VERIF_RANGE(&art_[current_index], 1, true);
                 detDF_[current_index]    = previous_level_cache.detDF()[previous_index];
+                VERIF_RANGE(&detDF_[current_index], 1, true);
             }
         }
 #pragma omp parallel for
         for (int i_theta = 0; i_theta < current_grid.ntheta(); i_theta++) {
+            VERIF_ITER(i_theta);
             for (int i_r = current_grid.numberSmootherCircles(); i_r < current_grid.nr(); i_r++) {
                 const int current_index  = current_grid.index(i_r, i_theta);
                 const int previous_index = previous_level.grid().index(2 * i_r, 2 * i_theta);
                 arr_[current_index]      = previous_level_cache.arr()[previous_index];
+                VERIF_RANGE(&arr_[current_index], 1, true);
                 att_[current_index]      = previous_level_cache.att()[previous_index];
+                VERIF_RANGE(&att_[current_index], 1, true);
                 art_[current_index]      = previous_level_cache.art()[previous_index];
+                VERIF_RANGE(&art_[current_index], 1, true);
                 detDF_[current_index]    = previous_level_cache.detDF()[previous_index];
+                VERIF_RANGE(&detDF_[current_index], 1, true);
             }
         }
     }
